@@ -23,7 +23,7 @@ ASSUMPTIONS = ["transport read contract: recvmsg returns 1..=buf.len() bytes of 
                "(an I/O error aborts the handshake with that error, not modelled)",
                "transport write contract: sendmsg accepts 1..=len bytes; all bytes are eventually written in order, never an error",
                "Linux (cfg(unix), not freebsd/dragonfly: the NUL byte is part of the first write)"]
-PARTIAL = ["C16_conforms_partial", "C16_auth_partial", "C16_auth_sound_partial", "C16_replies_partial", "C16_nopanic_partial"]
+PARTIAL = ["C16_conforms_partial", "C16_auth_partial", "C16_replies_partial"]
 
 BASE = g.S_AUTH + g.S_DATA + g.S_OTHER
 ALL = BASE + g.S_AUTH_MORE + g.S_DATA_MORE + g.S_OTHER_MORE
@@ -146,11 +146,13 @@ ENABLED = True
 LEVEL = "proof"
 LEVEL_TEXT = ("Theorems in coq/theories/Properties/C16.v about a Gallina mirror of Common::read_commands, Command::from_str and the "
               "Server state machine reading an arbitrary list of chunks: the outcome is the same for EVERY way the stream is cut "
-              "(induction over the chunk oracle); outside three explicitly defined classes of streams the observable outcome conforms to "
-              "an independent ideal SASL server (completion exactly on the inductive relation `accepts`, exactly the prescribed REJECTED/"
-              "ERROR/DATA/OK/AGREE_UNIX_FD lines, leftover bytes and fds handed on); no panic unless an LF stands where a line should "
-              "start; no bound on the length of the conversation. PARTIAL: the full statement is refuted by the faithful model "
-              "(three witnesses, all confirmed on the real code and listed as known findings).")
+              "(induction over the chunk oracle); NO stream makes the server panic (C16_nopanic) and completion is never granted wrongly "
+              "(C16_auth_sound: done => the inductive relation `accepts`) — both at full strength; outside one explicitly defined class of "
+              "streams (a line that is not a well-formed known command) the observable outcome conforms to an independent ideal SASL server "
+              "(completion exactly on `accepts`, exactly the prescribed REJECTED/ERROR/DATA/OK/AGREE_UNIX_FD lines, leftover bytes and "
+              "fds handed on); no bound on the length of the conversation. PARTIAL for that one class: the faithful model still refutes "
+              "the full statement there (malformed lines drop the connection without ERROR; confirmed on the real code, known finding). "
+              "Three earlier findings were repaired in /repo (49785cde, 862dae6a, 0c137ee7) and are now inside the theorems.")
 LEVEL_NOTE = ("Trusted: Coq kernel; the hand-written model, tied to the code by running the real Builder::server(..).p2p().build() over a "
               "scripted socket on ~94k (quick) transcripts/chunkings and comparing written bytes, completion, fd capability and leftover; "
               "the transport contracts (no I/O errors, reads of 1..=1024 bytes). Where the property text does not prescribe the "
